@@ -77,6 +77,26 @@ __CPROVER_ensures(g_ms_idx < n ==> ((unsigned char *)s)[g_ms_idx] == (unsigned c
 ;
 #endif
 
+/* ---- scratch allocation, ABSTRACT form used by C19.verify_*: a successful allocation is a FRESH object
+ * of the rounded size instead of a sub-range of the scratch data block.  Justification: C19.scratch_alloc
+ * / C19.scratch_checkpoint prove on the real body that the block is [data+old mark, +rounded size), inside
+ * the data block, disjoint from every earlier live block, that success happens exactly under the
+ * condition below and that the mark moves by the rounded size.  Separate objects are STRICTER for
+ * the caller (an access running from one block into the next is an out-of-bounds error here, while it
+ * would stay inside the data block in the concrete layout).  Requires a genuine scratch space. ---- */
+#ifdef BP_SCRATCH_ALLOC
+#define BP_R16(x) (((x) + 15) & ~(size_t)15)
+static void *secp256k1_scratch_alloc(const secp256k1_callback *error_callback, secp256k1_scratch *scratch, size_t size)
+__CPROVER_requires(__CPROVER_rw_ok(scratch, sizeof(*scratch)) && scratch->alloc_size <= scratch->max_size)
+__CPROVER_requires(scratch->magic[0] == 's' && scratch->magic[1] == 'c' && scratch->magic[2] == 'r' && scratch->magic[3] == 'a' &&
+                   scratch->magic[4] == 't' && scratch->magic[5] == 'c' && scratch->magic[6] == 'h' && scratch->magic[7] == 0)
+__CPROVER_assigns(scratch->alloc_size)
+__CPROVER_ensures((size <= SIZE_MAX - 15 && BP_R16(size) <= __CPROVER_old(scratch->max_size) - __CPROVER_old(scratch->alloc_size))
+    ? (__CPROVER_is_fresh(__CPROVER_return_value, BP_R16(size)) && scratch->alloc_size == __CPROVER_old(scratch->alloc_size) + BP_R16(size))
+    : (__CPROVER_return_value == NULL && scratch->alloc_size == __CPROVER_old(scratch->alloc_size)))
+;
+#endif
+
 /* ---- lift x to a curve point (square root inside): oracle ---- */
 #ifdef BP_SET_XQUAD
 static int secp256k1_ge_set_xquad(secp256k1_ge *r, const secp256k1_fe *x)
@@ -99,6 +119,40 @@ static int secp256k1_fe_impl_is_square_var(const secp256k1_fe *x)
 __CPROVER_requires(__CPROVER_r_ok(x, sizeof(*x)) && fe_mag(x, 8))
 __CPROVER_assigns()
 __CPROVER_ensures(__CPROVER_return_value == 0 || __CPROVER_return_value == 1)
+;
+#endif
+
+/* ---- further group / ElligatorSwift oracles used by the C07 misc parser units ---- */
+#ifdef BP_GE_IS_VALID
+static int secp256k1_ge_is_valid_var(const secp256k1_ge *a)
+__CPROVER_requires(__CPROVER_r_ok(a, sizeof(*a)) && ge_ok(a))
+__CPROVER_assigns()
+__CPROVER_ensures(__CPROVER_return_value == 0 || __CPROVER_return_value == 1)
+;
+#endif
+#ifdef BP_X_ON_CURVE
+static int secp256k1_ge_x_on_curve_var(const secp256k1_fe *x)
+__CPROVER_requires(__CPROVER_r_ok(x, sizeof(*x)) && fe_mag(x, 8))
+__CPROVER_assigns()
+__CPROVER_ensures(__CPROVER_return_value == 0 || __CPROVER_return_value == 1)
+;
+#endif
+#ifdef BP_ELLSWIFT
+/* swiftec: (u, t) -> curve point; defined for every (u, t), never infinity (frame + representation only) */
+static void secp256k1_ellswift_swiftec_var(secp256k1_ge *p, const secp256k1_fe *u, const secp256k1_fe *t)
+__CPROVER_requires(__CPROVER_w_ok(p, sizeof(*p)) && __CPROVER_r_ok(u, sizeof(*u)) && __CPROVER_r_ok(t, sizeof(*t)) && fe_mag(u, 1) && fe_canon(t))
+__CPROVER_assigns(*p)
+__CPROVER_ensures(ge_ok1(p) && p->infinity == 0)
+;
+static void secp256k1_ellswift_xswiftec_frac_var(secp256k1_fe *xn, secp256k1_fe *xd, const secp256k1_fe *u, const secp256k1_fe *t)
+__CPROVER_requires(__CPROVER_w_ok(xn, sizeof(*xn)) && __CPROVER_w_ok(xd, sizeof(*xd)) && __CPROVER_r_ok(u, sizeof(*u)) && __CPROVER_r_ok(t, sizeof(*t)) && fe_mag(u, 1) && fe_mag(t, 1))
+__CPROVER_assigns(*xn, *xd)
+__CPROVER_ensures(fe_mag(xn, 32) && fe_mag(xd, 32))
+;
+static int secp256k1_ecmult_const_xonly(secp256k1_fe *r, const secp256k1_fe *n, const secp256k1_fe *d, const secp256k1_scalar *q, int known_on_curve)
+__CPROVER_requires(__CPROVER_w_ok(r, sizeof(*r)) && __CPROVER_r_ok(n, sizeof(*n)) && fe_mag(n, 32) && (d == NULL || (__CPROVER_r_ok(d, sizeof(*d)) && fe_mag(d, 32))) && __CPROVER_r_ok(q, sizeof(*q)) && scalar_ok(q))
+__CPROVER_assigns(*r)
+__CPROVER_ensures((__CPROVER_return_value == 0 || __CPROVER_return_value == 1) && fe_mag(r, 32))
 ;
 #endif
 
